@@ -220,6 +220,8 @@ def real_tokens(repo, sec, log):
             ss = rtok.apply_mut_self(ss, log, label)
         elif r == "R0d":
             ss = rtok.apply_cfg_digit_expr(ss, log, label)
+        elif r == "R27":
+            ss = rtok.apply_inline_closure(ss, log, label)
         else:
             ss, n = rtok.RULES[r].apply(ss, log, label)
     if "rename" in kv:
